@@ -425,6 +425,39 @@ Definition f14_class (P : program) (q : query) : bool :=
                           end) (cbody c)
     end) cls.
 
+(** Known class F14b (found by the thorough tier of C04 on the and-or programs; the SLG solver's
+    treatment of coinductive cycles on non-ground goals again, this time losing answers): the
+    goal has an unknown and reaches a coinductive predicate with a *blanket* clause — an
+    argument of the head is a bare variable — whose body re-enters the predicate's strongly
+    connected component with that very variable as an argument.  SLG then may answer
+    [Unique] with a substitution that is only one of the solutions. *)
+Fixpoint aargs (t : ty) : list ty :=
+  match t with
+  | TAp f x => aargs f ++ [x]
+  | _ => []
+  end.
+
+Definition bare_vars (t : ty) : list nat :=
+  flat_map (fun x => match x with TVar i => [i] | _ => [] end) (aargs t).
+
+Definition f14b_class (P : program) (q : query) : bool :=
+  let cls := query_clauses P q in
+  let start := syms_of (goal_atoms (q_body q)) in
+  let R0 := reachS (graph_fuel cls (length start)) cls start [] in
+  negb (Nat.eqb (length (q_ubs q)) 0) &&
+  existsb (fun c =>
+    match hsym (chead c) with
+    | None => false
+    | Some h =>
+        memN h (pcoind P) && memN h R0 &&
+        existsb (fun i =>
+          existsb (fun b => existsb (Nat.eqb i) (bare_vars b) &&
+                            match hsym b with
+                            | Some h' => N.eqb h' h || memN h (reaches_from cls h')
+                            | None => false
+                            end) (cbody c)) (bare_vars (chead c))
+    end) cls.
+
 (** Known class F1 (DESIGN §5; [MayInvalidate] compares a new answer with the current guidance
     position by position and ignores that the guidance may repeat a bound variable).  The
     guidance can repeat a variable only if two unknowns of the goal can be identified, or one
@@ -678,6 +711,27 @@ Module ContractExamples.
   Proof.
     split; [reflexivity|]. split; [reflexivity|]. split; [|reflexivity].
     apply (check_answer_alarm_sound 50 (mkProg [] []) [] qh (ADefinite [0%N] [TVar 0; TVar 0]) [[I32; U32]] 2).
+    - apply rr_allb_spec. reflexivity.
+    - reflexivity.
+  Qed.
+  (* F14b: all traits coinductive;  H(T) :- P1(T), P0(T), P2(T);  H(B);  P2(T) :- H(T);  P1(T) :- P2(T);  P0(T) :- P2(T).
+     Every atom holds for every type (greatest fixed point), yet SLG answers
+     exists<X,Y> { X: P1, Y: H }  with  Unique [B, B]. *)
+  Definition tA := tapp 0 [].
+  Definition tB := tapp 1 [].
+  Definition Pq (n : N) t := tapp (1000 + n) [t].
+  Definition P14b := mkProg [mkClause (Pq 4 (TVar 0)) [Pq 1 (TVar 0); Pq 0 (TVar 0); Pq 2 (TVar 0)]; mkClause (Pq 4 tB) [];
+                             mkClause (Pq 2 (TVar 0)) [Pq 4 (TVar 0)]; mkClause (Pq 1 (TVar 0)) [Pq 2 (TVar 0)];
+                             mkClause (Pq 0 (TVar 0)) [Pq 2 (TVar 0)]] [1000%N; 1001%N; 1002%N; 1004%N].
+  Definition q14b := mkQuery 0 [0%N; 0%N] (GAnd (GAtom (Pq 1 (TVar 1))) (GAtom (Pq 4 (TVar 0)))).
+
+  Theorem f14b_refuted :
+    f14b_class P14b q14b = true /\ ~ contract P14b [] q14b (AUnique [] [tB; tB]) /\
+    check_answer 50 P14b [] q14b (AUnique [0%N; 0%N] [TVar 0; TVar 1]) [[tA; tA]; [tB; tA]] = VOk /\
+    f14b_class P14 q14 = false.
+  Proof.
+    split; [reflexivity|]. split; [|split; reflexivity].
+    apply (check_answer_alarm_sound 50 P14b [] q14b (AUnique [] [tB; tB]) [[tA; tA]] 2).
     - apply rr_allb_spec. reflexivity.
     - reflexivity.
   Qed.
